@@ -21,4 +21,8 @@ void fftw_execute(const fftw_plan p);
 void fftw_destroy_plan(fftw_plan p);
 void *fftw_malloc(size_t n);
 void fftw_free(void *p);
+/* verification instrumentation */
+void fftw_shim_trace(int enable);
+long fftw_shim_trace_get(int which, long *buf, long cap);
+long fftw_shim_alloc_size(void *p);
 #endif
